@@ -294,6 +294,22 @@ def run(ctx):
                    " -- rows of another app are retired by this namespace and their usage "
                    "records are written under the wrong app id"))
     ctx.require("R15.scope", nsc, 10, "scoped statements")
+    # the status row counts subscriptions: a connection that closed or went away
+    # is not counted any more (same rule instances as R02.key, removal part)
+    from . import c02
+    sub2 = Ctx(model, "C02", ctx.tier)
+    c02.run(sub2)
+    nrm = 0
+    for o in sub2.obligations:
+        if o.rule == "R02.key" and "removed" in o.construct:
+            nrm += 1
+            ctx.ob("R15.count", o.construct, o.ok, o.site, o.detail + ("" if o.ok else
+                   " -- the connection stays in the listener table and is counted in "
+                   "connections_websocket although it is not subscribed any more"))
+    ctx.require("R15.count", nrm, 2, "listener removal obligations")
+    shared.r_durable(ctx, "R15.durable", ("usage",),
+                     "a usage record that was written but not committed is lost by a clean "
+                     "stop: the retired object ends up with no record")
     # R15.table / R15.times
     app = ("obj", "AppNamespace", ("sym",))
     for kind, table in (("mailbox", "mailboxes"), ("nameplate", "nameplates")):
